@@ -181,6 +181,9 @@ func (l *Client) CreateCoopSpendingTransaction(swapParams *swap.OpeningParams, c
 	if err != nil {
 		return "", "", "", err
 	}
+	if err := onchain.VerifyTakerSignature(takerSig, sigHashBytes[:], swapParams.TakerPubkey); err != nil {
+		return "", "", "", err
+	}
 	makerSig, err := claimParams.Signer.Sign(sigHashBytes[:])
 	if err != nil {
 		return "", "", "", err
